@@ -129,4 +129,134 @@ theorem C10N_pulled_mono (w : World) (q : Query) (v : VarId) (k : Nat) :
     pulled v (uptoRow k (traceQueryN w q)) ≤ pulled v (traceQueryN w q) :=
   C10_pulled_mono v k _
 
+/-! ## 3. streaming: the events of an expression do not depend on its consumer -/
+
+/-- **C10N_streaming.** ANY expression, ANY continuation: the trace is the expression's OWN stream (`streamN`: its
+pull/read/exception events with its results in place) with the consumer's events spliced in at the results
+(`substCells`). So what the expression performs before handing out its `j`-th result is a prefix of its own stream
+that does not depend on what the consumer does with the results — in particular not on whether it ever asks for the
+next one; and nothing of the expression's stream after a result is performed before the consumer is done with it. -/
+theorem C10N_streaming (w : World) (e : Expr) (env : Env) (k : Env → Bool → List Ev) :
+    traceN w e env k = substCells k (streamN w e env) :=
+  traceN_eq_substCells w e env k
+
+/-- … for whole queries: the trace is the condition's own stream with the selection events of each TRUE result
+spliced in -/
+theorem C10N_streaming_query (w : World) (sel : List Term) (c : Expr) :
+    traceQueryN w ⟨sel, some c⟩ =
+      substCells (fun env t => if t then traceSel w env sel [] else []) (streamN w c []) :=
+  traceN_eq_substCells w c [] _
+
+/-- **C10N_streaming_var.** ANY condition (quantifiers anywhere), ANY selection, `v` a variable no selected term
+mentions: the pulls of `v` in the query trace are exactly the pulls of `v` in the condition's own stream, in order; the
+consumer that stops after `k` results has performed a PREFIX of them; so it has consumed at most what the whole
+condition consumes, and exhausting the query consumes exactly that. -/
+theorem C10N_streaming_var (w : World) (sel : List Term) (c : Expr) (v : VarId) (hv : ∀ t ∈ sel, v ∉ t.vars)
+    (k : Nat) :
+    (traceQueryN w ⟨sel, some c⟩).filter (isPullOf v) = (streamN w c []).filter (isPullOf v) ∧
+    (uptoRow k (traceQueryN w ⟨sel, some c⟩)).filter (isPullOf v) <+: (streamN w c []).filter (isPullOf v) ∧
+    pulled v (uptoRow k (traceQueryN w ⟨sel, some c⟩)) ≤ pulled v (streamN w c []) ∧
+    pulled v (traceQueryN w ⟨sel, some c⟩) = pulled v (streamN w c []) := by
+  have hn : (traceQueryN w ⟨sel, some c⟩).filter (isPullOf v) = (streamN w c []).filter (isPullOf v) := by
+    rw [C10N_streaming_query]
+    refine filter_substCells (isPullOf v) (fun _ => rfl) _ _ fun p _ => ?_
+    split
+    · exact List.filter_eq_nil_iff.2 fun e he => by
+        simp [isPullOf_false_of_noPull v _ (traceSel_noPull w v p.1 sel [] hv) e he]
+    · rfl
+  have hp : (uptoRow k (traceQueryN w ⟨sel, some c⟩)).filter (isPullOf v) <+:
+      (streamN w c []).filter (isPullOf v) := by
+    rw [← hn]; exact filter_prefix _ (uptoRow_prefix k _)
+  refine ⟨hn, hp, ?_, ?_⟩
+  · rw [← pulled_filter_isPullOf v (uptoRow k _), ← pulled_filter_isPullOf v (streamN w c [])]
+    exact pulled_mono_prefix v hp
+  · rw [← pulled_filter_isPullOf v (traceQueryN w ⟨sel, some c⟩), hn, pulled_filter_isPullOf]
+
+/-- **C10N_streaming_all.** When every selected term is a variable bound in every true result of the condition, the
+selection costs nothing: ALL pull/read/exception events of the query are those of the condition's own stream, and the
+consumer that stops after `k` results has performed a prefix of them. -/
+theorem C10N_streaming_all (w : World) (sel : List Term) (c : Expr)
+    (hsel : ∀ p ∈ cellsOf (streamN w c []), p.2 = true → ∀ t ∈ sel, ∃ v, t = .var v ∧ Bnd v p.1) (k : Nat) :
+    nonRow (traceQueryN w ⟨sel, some c⟩) = nonRow (streamN w c []) ∧
+    nonRow (uptoRow k (traceQueryN w ⟨sel, some c⟩)) <+: nonRow (streamN w c []) := by
+  have hn : nonRow (traceQueryN w ⟨sel, some c⟩) = nonRow (streamN w c []) := by
+    rw [C10N_streaming_query]
+    refine filter_substCells (fun e => !e.isRow) (fun _ => rfl) _ _ fun p hp => ?_
+    split
+    · rename_i ht
+      exact List.filter_eq_nil_iff.2 fun e he => by
+        simp [traceSel_bound_vars w p.1 sel [] (hsel p hp ht) e he]
+    · rfl
+  exact ⟨hn, by rw [← hn]; exact nonRow_prefix (uptoRow_prefix k _)⟩
+
+/-! ## 4. `exists` in any position: streams, adds nothing, needs only a prefix of its child -/
+
+/-- the stream of an `exists` node is the walk over the stream of its child (definitional; stated for reference) -/
+theorem C10N_exists_stream (w : World) (u : VarId) (c : Expr) (env : Env) :
+    streamN w (.exists_ u c) env = existsWalkN w u cell (streamN w c env) [] := rfl
+
+/-- **C10N_exists_prefix.** To perform any prefix of its own stream, an `exists` node (in any position, under any
+consumer) needs only a prefix of its child's stream: the walk over a prefix of the child's stream is a prefix of the
+walk over all of it. (`Exists` hands a witness on the moment its child produced it; it never looks ahead.) -/
+theorem C10N_exists_prefix (w : World) (u : VarId) (k : Env → Bool → List Ev) (a s : List Ev) (h : a <+: s)
+    (seen : List Val) : existsWalkN w u k a seen <+: existsWalkN w u k s seen :=
+  existsWalkN_prefix w u k h seen
+
+/-- **C10N_exists_adds_nothing.** When every result of the child binds the quantified variable (otherwise: `KeyError`),
+the pull/read/exception events of an `exists` node are exactly those of its child, in order — whatever is above. -/
+theorem C10N_exists_adds_nothing (w : World) (u : VarId) (c : Expr) (env : Env)
+    (hb : ∀ p ∈ cellsOf (streamN w c env), Bnd u p.1) :
+    nonRow (streamN w (.exists_ u c) env) = nonRow (streamN w c env) :=
+  existsWalkN_dropRows_cell w u _ [] hb
+
+/-! ## 5. `for_all` in any position: lazy in its universal variable, blocking in its condition -/
+
+/-- **C10N_forall_blocking.** Everything a `for_all` node performs happens BEFORE its first result: its trace is a
+row-free block of events that does not depend on the consumer, followed by the consumer's events for each surviving
+candidate. (The property allows it: "consuming pulls only what it needs" — `ForAll` needs the candidates under the
+first universal value and every later universal value to decide its first result; the correspondence confirms that
+the real engine does exactly this, see the build report.) -/
+theorem C10N_forall_blocking (w : World) (u : VarId) (c : Expr) (env : Env) :
+    ∃ (block : List Ev) (sols : List Env), NoRow block ∧
+      ∀ k : Env → Bool → List Ev, traceN w (.forAll u c) env k = block ++ sols.flatMap fun sol => k (merge env sol) true := by
+  simp only [traceN, traceForAllN]
+  have hu := uvals_noRow w u env
+  cases hU : uvals w u env with
+  | nil => exact ⟨[Ev.err .typeError], [], fun e he => by simp at he; subst he; rfl, fun k => rfl⟩
+  | cons q qs =>
+    obtain ⟨pre, env1⟩ := q
+    rw [hU] at hu
+    refine ⟨_, _, ?_, fun k => rfl⟩
+    exact NoRow.append (NoRow.append (hu _ (List.mem_cons_self ..)) (NoRow.dropRows _))
+      (forAllLoopN_fst_noRow _ qs (fun q h => hu q (List.mem_cons_of_mem _ h)) _)
+
+/-- **C10N_forall_early_exit.** `for_all` in any position, universal variable not bound by what is to its left, domain
+`v1 :: rest`: if the condition has no true result under the first value, ONE element of the universal domain is
+pulled, however long the domain; the events are that pull and the condition's events under it; the consumer gets
+nothing. -/
+theorem C10N_forall_early_exit (w : World) (u : VarId) (c : Expr) (env : Env) (k : Env → Bool → List Ev)
+    (v1 : Val) (rest : List Val) (hl : env.lookup (.var u) = none) (hd : w.dom u = v1 :: rest)
+    (h : (cellsOf (streamN w c ((.var u, v1) :: env))).filter (·.2) = []) :
+    traceN w (.forAll u c) env k = Ev.pull u 0 :: nonRow (streamN w c ((.var u, v1) :: env)) := by
+  simp only [traceN, traceForAllN, uvals, hl, hd, enumFrom, List.map_cons]
+  unfold streamN at h
+  rw [h]
+  simp [forAllLoopN_nil_sols, dropRows_eq_nonRow, streamN]
+
+/-- **C10N_forall_stops.** Once no candidate is left the loop performs nothing more — no further universal value is
+pulled, the condition is not evaluated again. -/
+theorem C10N_forall_stops (stream : Env → List Ev) (qs : List (List Ev × Env)) :
+    forAllLoopN stream qs [] = ([], []) :=
+  forAllLoopN_nil_sols stream qs
+
+/-- **C10N_forall_step.** While candidates are left, the loop obtains ONE more universal value (`pre`: its pull, or
+nothing for a bound variable), re-checks each candidate by taking the FIRST result of the condition's stream from
+`{**candidate, **bindings}` (`recheck`/`uptoCell`: nothing after that result is performed), and goes on with the
+survivors. -/
+theorem C10N_forall_step (stream : Env → List Ev) (pre : List Ev) (envq : Env) (qs : List (List Ev × Env))
+    (sol : Env) (sols : List Env) :
+    forAllLoopN stream ((pre, envq) :: qs) (sol :: sols) =
+      (pre ++ (recheck stream envq (sol :: sols)).1 ++ (forAllLoopN stream qs (recheck stream envq (sol :: sols)).2).1,
+       (forAllLoopN stream qs (recheck stream envq (sol :: sols)).2).2) := rfl
+
 end KrroodVerif.Eql
